@@ -274,3 +274,12 @@ def parse_fault_result(s):
     w, sites = rest.rsplit(" sites=", 1)
     st, locks = parse_world(w)
     return o, st, locks, int(sites)
+
+
+def guarded_call(im, c, timeout=6.0):
+    """im.call(c) under a watchdog: -> outcome string, or 'HANG' when the call does not return (the thread is abandoned)"""
+    box = []
+    t = threading.Thread(target=lambda: box.append(im.call(c)), daemon=True)
+    t.start()
+    t.join(timeout)
+    return box[0] if box else "HANG"
